@@ -74,6 +74,9 @@ def main():
         "cjk1": "中文", "cjk2": "日本語", "dig": "12345", "punct": "-_=+()",
         "pua": "a", "pua2": "", "hi": "￥", "hi2": "ﭐx", "kana": "カタ",
         "d1": "1", "d2": "22", "hang": "한글",
+        # U+0000 is an ordinary name character for the format (the length field, not a terminator, delimits the
+        # name): names that differ only by trailing NULs are different names and must come back verbatim
+        "nx": "x", "nx0": "x\u0000", "nx00": "x\u0000\u0000", "n0x": "\u0000x", "nmid": "a\u0000b",
     }
     emit("C", C)
     # D: supplementary-plane caseless characters mixed with high BMP ones
